@@ -383,6 +383,27 @@ def main():
         pr, cov = mod.run(prop, tier, seed)
         extra_problems += pr; extra_cov.update(cov)
 
+    # open known findings (known_findings.json): a problem whose class AND instance are listed
+    # there is reported as KNOWN-FINDING and does not count as a violation; nothing else is
+    # suppressed by it
+    known_instance_hits = []
+    opened = [k for k in load_known().get("findings", []) if k.get("property") == prop and k.get("status") == "open"]
+    if opened:
+        rest = []
+        for p in extra_problems:
+            kl = p.get("klass") if isinstance(p, dict) else None
+            hit = None
+            if kl and ":" in kl:
+                cls, inst = kl.split(":", 1)
+                for k in opened:
+                    if k.get("klass") == cls and inst in k.get("instances", []):
+                        hit = k
+            if hit:
+                known_instance_hits.append((hit, p))
+            else:
+                rest.append(p)
+        extra_problems = rest
+
     violations = []
     # (a) correspondence broken on this property's observables
     if corr["mismatches"]:
@@ -420,6 +441,22 @@ def main():
             failing = monitors.search(prop, spec, corr, tier, seed)
         except Exception as e:  # the search is best effort
             failing = None
+            violations.append(dict(kind="search-error", detail=repr(e)))
+
+    if violations and failing is None and spec.get("monitor"):
+        # a threaded run that is not linearizable usually hides a sequential defect: replay the
+        # operations of that run sequentially (generation order, and in the order in which the
+        # threads started them) and evaluate this property's monitor on the real crate's trace
+        try:
+            import monitors
+            for p in extra_problems:
+                det = p.get("detail") if isinstance(p, dict) else None
+                if p.get("kind") != "threads" or not isinstance(det, dict) or not det.get("history"):
+                    continue
+                failing = monitors.sequentialize(prop, spec, det["history"], det.get("observed_stamps_and_results", ""), det.get("run", ""))
+                if failing:
+                    break
+        except Exception as e:
             violations.append(dict(kind="search-error", detail=repr(e)))
 
     if failing is None and spec.get("direct_keys"):
@@ -488,11 +525,13 @@ def main():
         coverage["explanation"] = spec.get("explanation", "")
     ev = dict(property_id=prop, tier=tier, seed=seed, level=spec["level"], coverage=coverage,
               assumptions=spec.get("assumptions", []), wall_s=round(time.time() - t0, 2),
-              violations=len(violations), known_findings=[k["id"] for k in known_hits])
+              violations=len(violations), known_findings=sorted(set([k["id"] for k in known_hits] + [k["id"] for k, _ in known_instance_hits])))
     json.dump(ev, open(os.path.join(ROOT, "evidence", f"{prop}.json"), "w"), indent=1)
 
     for k in known_hits:
         print(f"KNOWN-FINDING: property={prop} {k['what']}")
+    for k, p in known_instance_hits:
+        print(f"KNOWN-FINDING: property={prop} {k['id']} {p['klass']} (failing input: {p.get('failing_input')})")
     if not violations:
         print(f"OK property={prop} tier={tier} obligations={proof['discharged']}/{proof['obligations']} histories={corr['evaluations']} states={corr['states']} transitions={corr['transitions']} wall={ev['wall_s']}s")
         sys.exit(0)
